@@ -163,9 +163,9 @@ def check_vector(ctx, v, rec, later):
         q = seen.get(date)
         det = dict(detail, week=date)
         if q is None:
-            if v['sampled'] and exp['up5'] and exp['up3']:
+            if v['mustsend'] and exp['up5'] and exp['up3']:
                 viol(ctx, '%s:upload:no-report-although-approved-data' % P, dict(det, expected=sorted(exp['up5'])),
-                              'no report was posted for %s although approved data with rate >= X exists and X passes the sampling rate' % date)
+                              'no report was posted for %s although approved data with rate >= X exists and X lies below the sampling rate' % date)
                 good = False
         else:
             body = A.Body(q['body'])
@@ -208,7 +208,7 @@ def run(ctx):
         'C01 approves builds on program/version/Go version; a report that additionally drops builds whose GOOS/GOARCH the configuration does not list (the reading of C11) is accepted too',
         'counter values are >= 1 and weekly sums stay below 2^31 (TLC integers)',
         'stack frames avoid the ditto form (a line whose package path is a double quote) so that counter.DecodeStack is the identity (C15 covers it)',
-        'a missing report is only reported when X passes the sampling rate and approved data with rate >= X exists; with 0 < SampleRate < X the statement is silent',
+        'whether a report is sent at all depends on the sampling rate, about which the statement is silent: a missing report is reported only when approved data with rate >= X exists and SampleRate = 1 or X < SampleRate (no reading of "sample rate" drops such a report); a report that IS sent is always checked',
         'mode file "on 2000-01-01", all expiry dates within 21 days before the start time (consent and age gating belong to C02)',
         'existence of report files after a run (C07/C08) is compared with ApprovalHist only as a divergence warning; their contents are checked',
     ]
@@ -460,7 +460,7 @@ def explain_random(ctx, o, c, rec):
     data = set((A.btuple(t['b']), ''.join('\n' if ch == 'NL' else ch for ch in t['n']), t['v']) for t in o['data'])
     if not o['sent']:
         viol(ctx, '%s:upload:no-report-although-approved-data' % P, detail,
-                      'no report was posted for %s although approved data with rate >= X exists and X passes the sampling rate' % date)
+                      'no report was posted for %s although approved data with rate >= X exists and X lies below the sampling rate' % date)
         return
     # a build whose entry the report carries is judged on program/version/Go version
     # (C01's reading), a build the report leaves out on all five fields (C11's)
